@@ -95,11 +95,12 @@ func (cm *CMap) parseCodeSpaceRange(content string) error {
 		return nil // No codespacerange section
 	}
 
-	endIdx := strings.Index(content[beginIdx:], "endcodespacerange")
+	// (searched behind the opening keyword: "...rangendcodespacerange" shares a letter with it)
+	endIdx := strings.Index(content[beginIdx+len("begincodespacerange"):], "endcodespacerange")
 	if endIdx == -1 {
 		return nil
 	}
-	endIdx += beginIdx
+	endIdx += beginIdx + len("begincodespacerange")
 
 	// Extract section content
 	section := content[beginIdx+len("begincodespacerange") : endIdx]
@@ -161,11 +162,12 @@ func (cm *CMap) parseBfChar(content string) error {
 		}
 		beginIdx += start
 
-		endIdx := strings.Index(content[beginIdx:], "endbfchar")
+		// (searched behind the opening keyword: "...rangendbfrange" shares a letter with it)
+		endIdx := strings.Index(content[beginIdx+len("beginbfchar"):], "endbfchar")
 		if endIdx == -1 {
 			break
 		}
-		endIdx += beginIdx
+		endIdx += beginIdx + len("beginbfchar")
 
 		// Extract section content
 		section := content[beginIdx+len("beginbfchar") : endIdx]
@@ -255,11 +257,12 @@ func (cm *CMap) parseBfRange(content string) error {
 		}
 		beginIdx += start
 
-		endIdx := strings.Index(content[beginIdx:], "endbfrange")
+		// (searched behind the opening keyword: "...rangendbfrange" shares a letter with it)
+		endIdx := strings.Index(content[beginIdx+len("beginbfrange"):], "endbfrange")
 		if endIdx == -1 {
 			break
 		}
-		endIdx += beginIdx
+		endIdx += beginIdx + len("beginbfrange")
 
 		// Extract section content
 		section := content[beginIdx+len("beginbfrange") : endIdx]
